@@ -850,7 +850,7 @@ def run(ctx: Ctx):
         "after a mutation; distinct by configuration + op list."
     )
     pool = dbrig.spec_pool(Loader())
-    hs = generate(ctx, pool, ctx.n(400, 9000))
+    hs = generate(ctx, pool, ctx.n(600, 9000))
     model = run_model_parallel("C11", [h.line() for h in hs])
     for h, m in zip(hs, model):
         judge(ctx, h)
